@@ -19,7 +19,7 @@ def run(out, k, with_patch):
     try:
         subprocess.run("git -C /repo worktree add -q %s HEAD" % wt, shell=True, check=True)
         cmd = cmd.replace("<worktree>", wt).replace("<wt>", wt)
-        cmd = re.sub(r"/tmp/seed2?/wt\d\d", wt, cmd)
+        cmd = re.sub(r"/tmp/seed\d*/wt\d\d", wt, cmd)
         cmd = re.sub(r";\s*rm -rf [\w/]+\s*$", "", cmd.rstrip())
         patch = os.path.join(out, "change%s.diff" % k)
         # the patch is applied (or not) by this script, never by the command
